@@ -9,8 +9,12 @@ PROP = {'id': 'C12',
                'SlurmManager.submit',
                'AsyncCliCommand.is_complete',
                'AsyncCliCommand._complete',
-               'AsyncCliCommand.cancel'],
- 'native': ['HpcSubmitter.run'],
+               'AsyncCliCommand.cancel',
+               'HpcSubmitter._update_status',
+               'HpcSubmitter.run',
+               'AsyncHpcSubmitter.is_complete',
+               'HpcStatusCollector.check_status'],
+ 'native': ['HpcSubmitter.run', 'JobSubmitter._handle_completion'],
  'records': ['AsyncHpcSubmitter', 'JobQueue', 'JobSubmitter'],
  'min_obligations': 600,
  'assumptions': ['E1/E2 (environment) for "reaches completion"; the fault schedules (failed sbatch, lost nodes) are explored only by the bounded simulator',
@@ -21,4 +25,5 @@ PROP = {'id': 'C12',
  'explanation': 'A failed submission returns ERROR, marks the handle complete with a non-zero code and is never added to `outstanding`; its jobs stay '
                 'SUBMITTED (never re-placed, C01); _handle_completion reports exactly the configured jobs without a row as missing and never invents or drops '
                 'a row; _is_complete forces completion exactly when no batch id is active. the node-level AsyncCliCommand methods are proved to refine the '
-                'AsyncJob interface contracts JobQueue is verified against.'}
+                'AsyncJob interface contracts JobQueue is verified against. _update_status persists the list of active batch ids whenever it differs from the '
+                'stored one (post: stored ids == active ids), which is what lets _is_complete force completion after the last batches vanished.'}
